@@ -170,40 +170,6 @@ impl<'a> World<'a> {
         self.vols[vol].dirs.get(&dir)?.entries.get(n)
     }
 
-    /// Compare a DirEntry returned by the library with the reader's entry.
-    fn cmp_entry(&self, de: &DirEntry, e: &fatspec::Ent) -> Option<String> {
-        let n = Name::Sfn(de.name.clone());
-        let _ = n;
-        let name_bytes: Vec<u8> = format!("{:?}", de.name).into_bytes();
-        let _ = name_bytes;
-        let lib_name = sfn_bytes(&de.name);
-        if lib_name != e.name {
-            return Some(format!("name {:?} vs {:?}", lib_name, e.name));
-        }
-        if de.size != e.size {
-            return Some(format!("size {} vs {}", de.size, e.size));
-        }
-        let attr_dbg = format!("{:?}", de.attributes);
-        let _ = attr_dbg;
-        if attr_bits(&de.attributes) != e.attr {
-            return Some(format!("attr {:#x} vs {:#x}", attr_bits(&de.attributes), e.attr));
-        }
-        let want_cluster = if e.cluster == 0 && e.is_dir() { 0xFFFF_FFFC } else { e.cluster };
-        if cluster_num(&de.cluster) != want_cluster {
-            return Some(format!("cluster {:#x} vs {:#x}", cluster_num(&de.cluster), want_cluster));
-        }
-        if de.entry_block.0 != e.block || de.entry_offset != e.off as u32 {
-            return Some(format!("location ({},{}) vs ({},{})", de.entry_block.0, de.entry_offset, e.block, e.off));
-        }
-        if let Some(d) = cmp_time(&de.ctime, e.ctime) {
-            return Some(format!("ctime {}", d));
-        }
-        if let Some(d) = cmp_time(&de.mtime, e.mtime) {
-            return Some(format!("mtime {}", d));
-        }
-        None
-    }
-
     pub fn step(&mut self, op: &Op) {
         if self.aborted.is_some() {
             return;
